@@ -1,7 +1,7 @@
 (** C01: groups and the top-level mapping — strict-mode acceptance implies the Prometheus loader model accepts. *)
 From Coq Require Import List String Ascii Arith Bool Lia.
 From PintV Require Import Common.Bytes Model.Yaml Model.Parser Model.Routing Model.PromLoader
-     Proofs.C19_relaxed Proofs.C02_wellformed Proofs.C01_prom Proofs.C01_pint Proofs.C01_rule.
+     Proofs.C19_relaxed Proofs.C02_wellformed Proofs.C01_prom Proofs.C01_pint Proofs.C01_rule Proofs.C01_merge.
 Import ListNotations.
 Open Scope string_scope.
 Open Scope list_scope.
@@ -183,7 +183,14 @@ Section Group.
 
   (** ---- the group-level guard: everything plain, except that below the items of `rules` the rule-level guard applies
       (aliases as values of rule keys and of rule labels / annotations) ---- *)
-  Definition rules_guard (v : node) : Prop := plain_node v /\ forall rn, In rn (n_content v) -> rule_guard rn.
+  (** a rule item: [rule_guard] (aliases as values), or a rule with one merge key `<<: *anchor` ([merge_rule_guard]) *)
+  Definition rule_item_guard (rn : node) : Prop :=
+    rule_guard rn \/ exists pre mk mx post t, merge_rule_guard rn pre mk mx post t.
+
+  Lemma rule_item_plain rn : rule_item_guard rn -> plain_node rn.
+  Proof. intros [[H _]|(pre & mk & mx & post & t & H & _)]; exact H. Qed.
+
+  Definition rules_guard (v : node) : Prop := plain_node v /\ forall rn, In rn (n_content v) -> rule_item_guard rn.
 
   Definition group_guard (gn : node) : Prop :=
     plain_node gn /\
@@ -194,7 +201,7 @@ Section Group.
   Proof.
     intros H. split; [exact (plain_self gn H)|]. intros k v Hin. destruct (plain_pairs gn k v H Hin) as [A B].
     split; [exact A|]. split; [|intros _; exact B]. intros _. split; [exact (plain_self v B)|].
-    intros rn Hrn. apply plain_rule_guard. eapply plain_below_content; eassumption.
+    intros rn Hrn. left. apply plain_rule_guard. eapply plain_below_content; eassumption.
   Qed.
 
   Lemma unpack_items v : plain_node v -> (forall c, In c (n_content v) -> plain_node c) -> unpack_nodes v = n_content v.
@@ -258,9 +265,9 @@ Section Group.
           destruct (dec_items_ok (dec_rule str_ok null_ok dur_ok) rule_ok_prom (n_content vr)) as (prs & E1 & E2).
           { intros rn Hrn. pose proof (Hitems rn Hrn) as Hprn.
             assert (Hr : In (PRS lines rn) (g_rules G)).
-            { rewrite F5. apply in_map. rewrite (unpack_items vr Hv (fun c Hc => proj1 (Hitems c Hc))). exact Hrn. }
+            { rewrite F5. apply in_map. rewrite (unpack_items vr Hv (fun c Hc => rule_item_plain c (Hitems c Hc))). exact Hrn. }
             destruct (Hrules _ Hr) as [He Hb].
-            eapply rule_sound; eauto. }
+            destruct Hprn as [Hg|(pre & mk & mx & post & t & Hg)]; [eapply rule_sound; eauto|eapply rule_sound_merge; eauto]. }
           exists prs. left. rewrite E1. split; [reflexivity|exact E2]. }
       (* the labels value *)
       assert (HL : match find_key "labels" ps with
